@@ -2,18 +2,23 @@ package rulesx
 
 import (
 	"context"
+	"errors"
 	"fmt"
+	"io"
 	"math/rand"
 	"os"
 	"strings"
 	"testing"
 	"time"
 
+	"github.com/go-kit/log"
 	"github.com/prometheus/prometheus/model/labels"
+	"google.golang.org/grpc"
 
 	"github.com/thanos-io/thanos/pkg/rules"
 	"github.com/thanos-io/thanos/pkg/rules/rulespb"
 	"github.com/thanos-io/thanos/pkg/store/labelpb"
+	"github.com/thanos-io/thanos/pkg/store/storepb"
 
 	"verif/harness/vt"
 )
@@ -29,6 +34,82 @@ func (f *fakeRules) Rules(_ *rulespb.RulesRequest, srv rulespb.Rules_RulesServer
 		}
 	}
 	return nil
+}
+
+// fakeClient is one rules server behind the real rules.Proxy: it may send a warning first, fail when
+// the call is opened, or fail in mid-stream (before its group messages).
+type fakeClient struct {
+	groups []*rulespb.RuleGroup
+	fail   string
+}
+
+type fakeStream struct {
+	grpc.ClientStream
+	c   *fakeClient
+	pos int
+}
+
+func (f *fakeClient) Rules(ctx context.Context, _ *rulespb.RulesRequest, _ ...grpc.CallOption) (rulespb.Rules_RulesClient, error) {
+	if f.fail == "open" {
+		return nil, errors.New("rules server unavailable")
+	}
+	return &fakeStream{c: f}, nil
+}
+
+func (s *fakeStream) Recv() (*rulespb.RulesResponse, error) {
+	s.pos++
+	if s.c.fail == "mid" {
+		return nil, errors.New("stream broken")
+	}
+	i := s.pos - 1
+	if s.c.fail == "warn" {
+		if i == 0 {
+			return rulespb.NewWarningRulesResponse(errors.New("some rule files could not be read")), nil
+		}
+		i--
+	}
+	if i >= len(s.c.groups) {
+		return nil, io.EOF
+	}
+	return rulespb.NewRuleGroupRulesResponse(s.c.groups[i]), nil
+}
+
+func groupMessages(rs []any) []*rulespb.RuleGroup {
+	var groups []*rulespb.RuleGroup
+	for _, x := range rs {
+		r := vt.Map(x)
+		f, g := vt.Str(r["file"]), vt.Str(r["group"])
+		if n := len(groups); n == 0 || groups[n-1].File != f || groups[n-1].Name != g {
+			groups = append(groups, &rulespb.RuleGroup{File: f, Name: g})
+		}
+		groups[len(groups)-1].Rules = append(groups[len(groups)-1].Rules, mkRule(r))
+	}
+	return groups
+}
+
+// fullReq completes a case to the request shape the trace spec judges (Rules.tla, phase 2): cases of
+// the first generation have one healthy rules server, no name/group/file filter.
+func fullReq(c vt.Case) map[string]any {
+	req := map[string]any{"sets": c["sets"], "rep": c["rep"], "names": []any{}, "groups": []any{}, "files": []any{},
+		"strategy": "WARN", "clients": []any{map[string]any{"fail": "none"}}}
+	for _, k := range []string{"names", "groups", "files", "strategy", "clients"} {
+		if v, ok := c[k]; ok {
+			req[k] = v
+		}
+	}
+	rs := []any{}
+	for _, x := range vt.List(c["rules"]) {
+		r := map[string]any{}
+		for k, v := range vt.Map(x) {
+			r[k] = v
+		}
+		if _, ok := r["src"]; !ok {
+			r["src"], r["sent"] = 1, true
+		}
+		rs = append(rs, r)
+	}
+	req["rules"] = rs
+	return req
 }
 
 const evalBase = 1700000000
@@ -181,7 +262,58 @@ func randCase(r *rand.Rand) vt.Case {
 	return vt.Case{"rules": rs, "sets": sets, "rep": rep}
 }
 
-// TestC45 runs every case through the real rules.NewGRPCClientWithDedup(...).Rules.
+// randProxyCase spreads the replicas of a random case over 2-4 rules servers with fail modes, picks
+// a partial-response strategy and name / group / file filters.
+func randProxyCase(r *rand.Rand) vt.Case {
+	c := randCase(r)
+	n := 2 + r.Intn(3)
+	clients := []any{}
+	fails := make([]string, n)
+	for i := range fails {
+		fails[i] = []string{"none", "none", "none", "warn", "open", "mid"}[r.Intn(6)]
+		clients = append(clients, map[string]any{"fail": fails[i]})
+	}
+	for _, x := range c["rules"].([]any) {
+		m := x.(map[string]any)
+		src := 1 + r.Intn(n)
+		m["src"] = src
+		m["sent"] = fails[src-1] == "none" || fails[src-1] == "warn"
+	}
+	// rules of one server travel together, in the server's order
+	rs := c["rules"].([]any)
+	var ordered []any
+	for i := 1; i <= n; i++ {
+		for _, x := range rs {
+			if x.(map[string]any)["src"] == i {
+				ordered = append(ordered, x)
+			}
+		}
+	}
+	c["rules"] = ordered
+	pick := func(opts []string) []any {
+		out := []any{}
+		if r.Intn(3) == 0 {
+			for _, o := range opts {
+				if r.Intn(2) == 0 {
+					out = append(out, o)
+				}
+			}
+			if r.Intn(4) == 0 {
+				out = append(out, "no-such")
+			}
+		}
+		return out
+	}
+	c["names"] = pick([]string{"HighLatency", "job:up:sum"})
+	c["groups"] = pick([]string{"node", "kube"})
+	c["files"] = pick([]string{"/etc/rules/a.yaml", "/etc/rules/b.yaml"})
+	c["strategy"] = []string{"WARN", "WARN", "ABORT"}[r.Intn(3)]
+	c["clients"] = clients
+	return c
+}
+
+// TestC45 runs every case through the real rules.NewGRPCClientWithDedup(...).Rules; cases with a
+// "clients" field go through the real fan-out rules.Proxy over fake rules servers.
 func TestC45(t *testing.T) {
 	rnd := vt.Rand()
 	gen := func(yield func(vt.Case)) {
@@ -197,35 +329,62 @@ func TestC45(t *testing.T) {
 				yield(c)
 			}
 		}
+		if p := os.Getenv("VERIF_CASES_RULESPROXYMC"); p != "" {
+			cs, err := vt.ReadNDJSON(p)
+			if err != nil {
+				t.Fatal(err)
+			}
+			for _, c := range cs {
+				yield(c)
+			}
+		}
 		for i, n := 0, vt.Pick(1500, 15000); i < n; i++ {
 			yield(randCase(rnd))
 		}
+		for i, n := 0, vt.Pick(500, 6000); i < n; i++ {
+			yield(randProxyCase(rnd))
+		}
 	}
 	vt.Run(t, gen, nil, func(c vt.Case) (ev vt.Event) {
-		// group messages: consecutive rules of one file/group travel together
-		var groups []*rulespb.RuleGroup
-		for _, x := range vt.List(c["rules"]) {
-			r := vt.Map(x)
-			f, g := vt.Str(r["file"]), vt.Str(r["group"])
-			if n := len(groups); n == 0 || groups[n-1].File != f || groups[n-1].Name != g {
-				groups = append(groups, &rulespb.RuleGroup{File: f, Name: g})
-			}
-			groups[len(groups)-1].Rules = append(groups[len(groups)-1].Rules, mkRule(r))
-		}
+		req := fullReq(c)
+		_, viaProxy := c["clients"]
 		var sels []string
 		for _, s := range vt.List(c["sets"]) {
 			sels = append(sels, selector(vt.List(s)))
 		}
-		ev = vt.Event{"sel": append([]string{}, sels...)}
-		got := map[string]any{"err": "", "rules": []any{}}
+		ev = vt.Event{"sel": append([]string{}, sels...), "req": req, "via": map[bool]string{true: "proxy", false: "direct"}[viaProxy]}
+		got := map[string]any{"err": "", "warnings": 0, "rules": []any{}}
 		ev["got"] = got
 		defer func() {
 			if r := recover(); r != nil {
 				got["err"] = fmt.Sprint("panic: ", r)
 			}
 		}()
-		cl := rules.NewGRPCClientWithDedup(&fakeRules{groups: groups}, vt.Strs(c["rep"]))
-		res, _, err := cl.Rules(context.Background(), &rulespb.RulesRequest{MatcherString: sels})
+		var server rulespb.RulesServer
+		if !viaProxy {
+			// group messages: consecutive rules of one file/group travel together
+			server = &fakeRules{groups: groupMessages(vt.List(req["rules"]))}
+		} else {
+			var clients []rulespb.RulesClient
+			for i, x := range vt.List(req["clients"]) {
+				var mine []any
+				for _, r := range vt.List(req["rules"]) {
+					if vt.Int(vt.Map(r)["src"]) == i+1 {
+						mine = append(mine, r)
+					}
+				}
+				clients = append(clients, &fakeClient{groups: groupMessages(mine), fail: vt.Str(vt.Map(x)["fail"])})
+			}
+			server = rules.NewProxy(log.NewNopLogger(), func() []rulespb.RulesClient { return clients })
+		}
+		strategy := storepb.PartialResponseStrategy_WARN
+		if vt.Str(req["strategy"]) == "ABORT" {
+			strategy = storepb.PartialResponseStrategy_ABORT
+		}
+		cl := rules.NewGRPCClientWithDedup(server, vt.Strs(c["rep"]))
+		res, warns, err := cl.Rules(context.Background(), &rulespb.RulesRequest{MatcherString: sels, PartialResponseStrategy: strategy,
+			RuleName: vt.Strs(req["names"]), RuleGroup: vt.Strs(req["groups"]), File: vt.Strs(req["files"])})
+		got["warnings"] = len(warns)
 		if err != nil {
 			got["err"] = err.Error()
 			return ev
